@@ -29,24 +29,33 @@ import (
 
 // Obs is what the client saw for one operation.
 type Obs struct {
-	Kind  string `json:"kind"`            // ok | full | invalid-id | err | empty | batch | cut | restarted | restart-failed
+	Kind  string `json:"kind"`            // ok | rejected | err | empty | batch | cut | restarted | restart-failed
 	Batch string `json:"batch,omitempty"` // name of the batch handed out (kind=batch)
 	Err   string `json:"err,omitempty"`
+	// fullIdentity: the rejection's error carries the identity of single.ErrQueueFull (evidence only)
+	fullIdentity bool
 }
 
 func (o Obs) String() string {
 	switch o.Kind {
 	case "batch":
 		return "->" + o.Batch
-	case "err", "restart-failed":
+	case "err", "restart-failed", "rejected":
 		return o.Kind + "(" + o.Err + ")"
 	}
 	return o.Kind
 }
 
+// emptyName stands for an empty submission in the queue of the model: an implementation may ignore
+// an empty submission or queue it and hand it out once, in order (at the interface it then looks
+// like the answer of an empty queue).
+const emptyName = "∅"
+
 type mstate struct {
 	q       []string        // queued batch names in acceptance order
-	bag     int             // the first bag elements were reloaded in unknown order (trigB fork)
+	bag     int             // the first bag elements were reloaded in unknown order (trigB fork, or records of an older version)
+	em      [2]int8         // what the implementation does with an empty submission ([0]: empty batch, [1]: nil batch): 0 not seen yet, 1 ignores it, 2 queues it
+	bagFree bool            // the unknown order of the bag is legitimate (records written by an older version): no deviation is flagged
 	present map[string]bool // last durable operation on the content was a submit (only read for tainted contents)
 	taint   map[string]bool
 	loss    bool // a predicted content-hash-key loss was needed to explain the observations
@@ -59,7 +68,7 @@ func newState() *mstate {
 }
 
 func (s *mstate) clone() *mstate {
-	c := &mstate{q: append([]string(nil), s.q...), bag: s.bag, present: map[string]bool{}, taint: map[string]bool{},
+	c := &mstate{q: append([]string(nil), s.q...), bag: s.bag, bagFree: s.bagFree, em: s.em, present: map[string]bool{}, taint: map[string]bool{},
 		loss: s.loss, perm: s.perm, notes: append([]string(nil), s.notes...)}
 	for k, v := range s.present {
 		if v {
@@ -93,7 +102,7 @@ func (s *mstate) key() string {
 			pr[c] = true
 		}
 	}
-	return fmt.Sprintf("%s|%d|%s|%s|%v%v", strings.Join(s.q, ","), s.bag, setStr(pr), setStr(s.taint), s.loss, s.perm)
+	return fmt.Sprintf("%s|%d%v|%v|%s|%s|%v%v", strings.Join(s.q, ","), s.bag, s.bagFree && s.bag > 0, s.em, setStr(pr), setStr(s.taint), s.loss, s.perm)
 }
 
 func (s *mstate) count(c string) int {
@@ -163,13 +172,52 @@ func stepSub(S []*mstate, c string, bound int, o Obs) []*mstate {
 				n.push(c)
 				out = append(out, n)
 			}
-		case "full":
+		case "rejected":
 			if s.full(bound) {
 				out = append(out, s)
 			}
 		}
 	}
 	return dedupe(out)
+}
+
+// stepSubEmpty: an empty submission that returned without error was either ignored or queued;
+// an implementation does the same thing every time (per kind: nil batch / batch without
+// transactions), so the fork happens once.
+func stepSubEmpty(S []*mstate, bound int, isNil bool) []*mstate {
+	k := 0
+	if isNil {
+		k = 1
+	}
+	var out []*mstate
+	for _, s := range S {
+		if s.em[k] != 2 {
+			n := s
+			if s.em[k] == 0 {
+				n = s.clone()
+				n.em[k] = 1
+			}
+			out = append(out, n)
+		}
+		if s.em[k] != 1 && !s.full(bound) {
+			n := s.clone()
+			n.em[k] = 2
+			n.q = append(n.q, emptyName)
+			out = append(out, n)
+		}
+	}
+	return dedupe(out)
+}
+
+// newLegacyState is the state of a queue whose database holds records of an older version: they
+// come first, in an order nobody can know.
+func newLegacyState(names []string) *mstate {
+	s := newState()
+	for _, n := range names {
+		s.push(n)
+	}
+	s.bag, s.bagFree = len(names), true
+	return s
 }
 
 // stepNext filters/advances the state set for an observed GetNextBatch.
@@ -180,6 +228,23 @@ func stepNext(S []*mstate, o Obs) []*mstate {
 		case "empty":
 			if len(s.q) == 0 {
 				out = append(out, s)
+				continue
+			}
+			// a queued empty submission coming out looks the same
+			lim := 1
+			if s.bag > 0 {
+				lim = s.bag
+			}
+			for i := 0; i < lim && i < len(s.q); i++ {
+				if s.q[i] == emptyName {
+					n := s.clone()
+					n.removeAt(i)
+					if n.bag > 0 {
+						n.bag--
+					}
+					out = append(out, n)
+					break
+				}
 			}
 		case "batch":
 			if len(s.q) == 0 {
@@ -191,7 +256,7 @@ func stepNext(S []*mstate, o Obs) []*mstate {
 						n := s.clone()
 						n.removeAt(i)
 						n.bag--
-						if i > 0 {
+						if i > 0 && !s.bagFree {
 							n.perm = true
 							n.notes = append(n.notes, fmt.Sprintf("%s handed out before %s which was accepted earlier", o.Batch, s.q[0]))
 						}
@@ -240,7 +305,7 @@ func effNext(s *mstate) []*mstate {
 		n := s.clone()
 		n.removeAt(i)
 		n.bag--
-		if i > 0 {
+		if i > 0 && !s.bagFree {
 			n.perm = true
 		}
 		out = append(out, n)
@@ -292,7 +357,7 @@ func stepRestart(S []*mstate, tolerate bool) (out []*mstate, a, b bool) {
 			n := afterRestart(v)
 			out = append(out, n)
 			// predicted deviation: everything queued comes back in unknown order
-			if tolerate && tb && len(n.q) >= 2 && n.bag < len(n.q) {
+			if tolerate && tb && len(n.q) >= 2 && n.bag < len(n.q) && !(n.bagFree && n.bag > 0) {
 				p := n.clone()
 				p.bag = len(p.q)
 				out = append(out, p)
